@@ -490,6 +490,9 @@ class PoolMetricsStream(Stream):
 #   D  = {"cap": V, "lo": V, "hi": V, "soc": V}      V = [num, den] | "nan"      (None = silent at start)
 #   OP = {"op": "status", "working": [ids]} | {"op": "request", "what": "soc" | "capacity"}
 #      | {"op": "data", "id": b, "d": D} | {"op": "silence", "id": b} | {"op": "resume", "id": b}
+#      | {"op": "drift", "id": b, "field": "soc"|"cap"|"lo"|"hi", "rel": [n, d], "steps": N}
+#        (N messages 50 virtual ms apart, the field moving from v0 to v0 * (1 + k * rel), k = 1..N, with
+#         nothing else happening in between: the streamed value must follow slow changes, too)
 # After every OP the scenario waits SETTLE virtual seconds (longer than the fetchers' 2 s data
 # timeout + the aggregator's 2 s start delay + the 0.5 s streaming period) and records the latest
 # value each requested stream has emitted; that value must be the documented aggregate of the
@@ -537,6 +540,10 @@ def snapshots(case):
         elif k == "resume":
             if op["id"] in last:
                 silent.discard(op["id"])
+        elif k == "drift":
+            d = last.get(op["id"])
+            if d is not None and op["id"] not in silent and fr(d[op["field"]]) is not None:
+                last[op["id"]] = {**d, op["field"]: enc(fr(d[op["field"]]) * (1 + op["steps"] * fr(op["rel"])))}
         bats = []
         for b in sorted(case["pool"]):
             d = last.get(b)
@@ -593,18 +600,21 @@ def run_pool(case):
         senders = {b: api.chan(b).new_sender() for b in pool_ids}
         val = lambda v: math.nan if v == "nan" or v is None else X(F(v[0], v[1]))
 
+        async def send_now(b):
+            d = cur.get(b)
+            if b in silent or d is None:
+                return
+            await senders[b].send(I.BatteryData(
+                component_id=b, timestamp=BASE_TS + I.timedelta(seconds=loop.time()),
+                soc=val(d["soc"]), soc_lower_bound=val(d["lo"]), soc_upper_bound=val(d["hi"]), capacity=val(d["cap"]),
+                power_inclusion_lower_bound=-1000.0, power_exclusion_lower_bound=0.0,
+                power_inclusion_upper_bound=1000.0, power_exclusion_upper_bound=0.0, temperature=20.0,
+                relay_state=I.BatteryRelayState.CLOSED, component_state=I.BatteryComponentState.IDLE, errors=[]))
+
         async def streamer():
             while True:
                 for b in pool_ids:
-                    d = cur.get(b)
-                    if b in silent or d is None:
-                        continue
-                    await senders[b].send(I.BatteryData(
-                        component_id=b, timestamp=BASE_TS + I.timedelta(seconds=loop.time()),
-                        soc=val(d["soc"]), soc_lower_bound=val(d["lo"]), soc_upper_bound=val(d["hi"]), capacity=val(d["cap"]),
-                        power_inclusion_lower_bound=-1000.0, power_exclusion_lower_bound=0.0,
-                        power_inclusion_upper_bound=1000.0, power_exclusion_upper_bound=0.0, temperature=20.0,
-                        relay_state=I.BatteryRelayState.CLOSED, component_state=I.BatteryComponentState.IDLE, errors=[]))
+                    await send_now(b)
                 await aio.sleep(PERIOD)
 
         logs = {"soc": [], "capacity": []}
@@ -635,6 +645,14 @@ def run_pool(case):
                 elif k == "resume":
                     if cur.get(op["id"]) is not None:
                         silent.discard(op["id"])
+                elif k == "drift":
+                    b, d0 = op["id"], cur.get(op["id"])
+                    if d0 is not None and b not in silent and fr(d0[op["field"]]) is not None:
+                        v0, rel = fr(d0[op["field"]]), fr(op["rel"])
+                        for step in range(1, op["steps"] + 1):
+                            cur[b] = {**d0, op["field"]: enc(v0 * (1 + step * rel))}
+                            await send_now(b)
+                            await aio.sleep(0.05)
                 await aio.sleep(SETTLE)
                 checkpoints.append({w: (["none-yet"] if not logs[w] else [logs[w][-1][1]]) for w in ("soc", "capacity")
                                     if any(t.get_name() == w for t in tasks)})
@@ -685,6 +703,18 @@ def gen_pool_case(rng):
             script.append({"op": "silence", "id": b})
         else:
             script.append({"op": "resume", "id": b})
+    if rng.random() < 0.09:
+        # a metric drifting in many small steps with no other event in between; mostly short, a few long
+        steps = rng.choice([20, 20, 20, 50, 50, 200, 200, 200, 1000, 1000, 1000, 4000])
+        rel = rng.choice([F(1, 10 ** 6), F(1, 10 ** 5), F(5, 10 ** 5), F(1, 10 ** 4), F(1, 10 ** 3)]) * rng.choice([1, 1, -1])
+        if steps * abs(rel) > 2:
+            rel = rel / 10
+        script.append({"op": "drift", "id": rng.choice(pool), "field": rng.choice(["soc", "soc", "cap", "lo", "hi"]),
+                       "rel": enc(rel), "steps": steps})
+        if rng.random() < 0.3:
+            script.append({"op": "status", "working": list(pool)})
+            script.append({"op": "drift", "id": rng.choice(pool), "field": rng.choice(["soc", "cap"]),
+                           "rel": enc(F(1, 10 ** 5)), "steps": rng.choice([50, 300])})
     if rng.random() < 0.3:  # sometimes drop one of the requests / move it to the very end
         i = next(k for k, o in enumerate(script) if o["op"] == "request")
         script.append(script.pop(i))
@@ -703,6 +733,13 @@ def pool_boundary_cases():
         {"pool": [5, 8], "init": init, "script": [R("capacity"), R("soc"), S(5), S(5, 8), S(8)]},
         # no status at all: nothing is known to work
         {"pool": [5, 8], "init": init, "script": [R("soc"), R("capacity")]},
+        # battery 5 charges 40 % -> 50 % in 4000 steps of 0.0025 %, nothing else happens meanwhile
+        {"pool": [5, 8], "init": {"5": D(1000, 10, 90, 40), "8": D(3000, 10, 90, 90)},
+         "script": [S(5), R("soc"), R("capacity"), {"op": "drift", "id": 5, "field": "soc", "rel": enc(F(1, 16000)), "steps": 4000}]},
+        # capacity fading and the upper limit creeping in steps of 1e-6 / 1e-5
+        {"pool": [5, 8], "init": init,
+         "script": [S(5, 8), R("capacity"), R("soc"), {"op": "drift", "id": 8, "field": "cap", "rel": enc(F(-1, 10 ** 6)), "steps": 1000},
+                    {"op": "drift", "id": 5, "field": "hi", "rel": enc(F(-1, 10 ** 5)), "steps": 300}]},
         # a working battery goes silent, comes back; a metric turns NaN
         {"pool": [5, 8], "init": init, "script": [S(5, 8), R("soc"), R("capacity"), {"op": "silence", "id": 8},
                                                  {"op": "resume", "id": 8},
@@ -801,6 +838,10 @@ class PoolIntegrationStream(Stream):
             if first_status < first_req and set(sc[first_status]["working"]) != set(case["pool"]):
                 out.append("first_status_has_non_working_battery_before_request")
         out += sorted({f"op_{o['op']}" for o in sc})
+        for o in sc:
+            if o["op"] == "drift":
+                out.append(f"drift_steps>={10 ** (len(str(o['steps'])) - 1)}")
+                out.append(f"drift_rel_step<=1e{math.ceil(math.log10(abs(float(fr(o['rel'])))))}")
         if any(v is None for v in case["init"].values()):
             out.append("battery_silent_from_start")
         if any(d == "nan" for v in case["init"].values() if v for d in v.values()) or any(
@@ -814,6 +855,9 @@ class PoolIntegrationStream(Stream):
         sc = case["script"]
         for i in range(len(sc)):
             yield {**case, "script": sc[:i] + sc[i + 1:]}
+        for i, o in enumerate(sc):
+            if o["op"] == "drift" and o["steps"] > 10:
+                yield {**case, "script": sc[:i] + [{**o, "steps": o["steps"] // 4}] + sc[i + 1:]}
         for b in case["pool"]:
             if len(case["pool"]) > 1:
                 yield {"pool": [x for x in case["pool"] if x != b],
